@@ -1,5 +1,5 @@
 (* C17 — message passing returns the (iterate towards the) fixed point of the motif-cover equations.
-   Property theorems only; each is closed by [exact] of a lemma of Proofs/MsgPassP.v.
+   Property theorems only; each is closed by [exact] of a lemma of Proofs/MsgPassP.v / MsgPassG.v.
 
    Objects (Model/MsgPass.v):
      net                      cover-labelled network: nodes, edges in sweep order with their motif ID, motif table
